@@ -1,8 +1,14 @@
-# source me.  igc_one <shim> <out.o> <file.c>  compiles one of the repository's compat-libc sources against the
-# host headers + a two-file shim, then prefixes every symbol with igc_ (so igc_memcpy ... are the repository's
-# functions and the unprefixed names stay glibc's = the reference) and maps the host-owned references back:
-# every undefined symbol that starts with two underscores (__errno_location, __stack_chk_fail, __tsan_*, ...)
-# and whatever $IGC_KEEP lists.  $IGC_CFLAGS: extra compiler flags (sanitizer build).
+# source me. Recipe that turns the repository's compat-libc sources into objects whose every symbol is prefixed igc_
+# (igc_memcpy ... are the repository's functions; the unprefixed names stay glibc's = the reference):
+#   igc_one <shim> <out.o> <file.c>   compile against the host headers + a two-file shim, prefix every symbol
+#   igc_resolve <objs...>             afterwards, over the whole set: an undefined igc_X stays igc_X when one of the
+#                                     objects defines it (a repository routine calling a sibling routine binds to the
+#                                     repository's twin) or when the harness supplies it ($IGC_HARNESS: malloc free
+#                                     calloc realloc rand srand); every other undefined igc_X (__errno_location,
+#                                     __stack_chk_fail, __tsan_*, _Unwind_Resume, a libc function the repository does
+#                                     not implement, ...) is mapped back to the host's X.
+# $IGC_CFLAGS / $IGC_OPT: extra compiler flags / optimisation level (sanitizer build).
+IGC_HARNESS="${IGC_HARNESS:-malloc free calloc realloc rand srand}"
 igc_shim() { # $1 = dir
     mkdir -p "$1"
     echo "#include \"$REPO/compat/libc/include/ctype.h\"" > "$1/ctype.h"
@@ -11,11 +17,18 @@ igc_shim() { # $1 = dir
 igc_one() { # $1 = shim dir, $2 = out.o, $3 = src.c
     gcc -c ${IGC_OPT:--O2} -g -w -fno-builtin -fno-tree-loop-distribute-patterns -fstack-protector-strong -fexceptions $IGC_CFLAGS \
         -U_FORTIFY_SOURCE -D_GNU_SOURCE -D'__weak_alias(a,b)=' -isystem "$1" -I"$REPO" "$3" -o "$2" || return 1
-    objcopy --prefix-symbols=igc_ "$2" || return 1
-    local args=()
-    for s in $IGC_KEEP; do args+=(--redefine-sym "igc_$s=$s"); done
-    for s in $(nm -u "$2" | awk '{print $2}' | grep '^igc___' | sort -u); do
-        case " $IGC_KEEP " in *" ${s#igc_} "*) ;; *) args+=(--redefine-sym "$s=${s#igc_}") ;; esac
+    objcopy --prefix-symbols=igc_ "$2"
+}
+igc_resolve() { # objects of one executable
+    local defined o s args
+    defined=" $(nm --defined-only "$@" | awk 'NF==3{print $3}' | sort -u | tr '\n' ' ') "
+    for o in "$@"; do
+        args=()
+        for s in $(nm -u "$o" | awk '{print $2}' | grep '^igc_' | sort -u); do
+            case "$defined" in *" $s "*) continue ;; esac
+            case " $IGC_HARNESS " in *" ${s#igc_} "*) continue ;; esac
+            args+=(--redefine-sym "$s=${s#igc_}")
+        done
+        [ ${#args[@]} -eq 0 ] || objcopy "${args[@]}" "$o" || return 1
     done
-    [ ${#args[@]} -eq 0 ] || objcopy "${args[@]}" "$2"
 }
